@@ -25,7 +25,7 @@ func init() {
 		ID:    "C17",
 		Level: "model_checking",
 		Rule: "all decimal int spellings <=4 chars over {0,1,7,9,_} + spellings around 2^63/2^64/10^19; 0x/0o/0b spellings <=3 digits + widest values; exponent ints M e K (K in [-3,20]); floats D.D (<=3+3 digits) and exponent floats incl. extreme magnitudes; " +
-			"every escape \\c for c in 0x20..0x7e, \\x/\\u/octal samples, embedded quotes, trailing backslash, char and raw strings; every identifier <=3 (thorough 4) chars over {a,Z,7,_,?,!} matching the documented pattern and every keyword-prefixed/suffixed name, " +
+			"every escape \\c for c in 0x20..0x7e, \\x/\\u/octal samples, embedded quotes, trailing backslash, char and raw strings; every identifier <=4 (thorough 5) chars over {a,Z,7,_,?,!} matching the documented pattern and every keyword-prefixed/suffixed name, " +
 			"each used as variable, property, symbol and call; oracle = math/big, strconv.ParseFloat, escape table; non-representable literals must be rejected; non-trivial = every case; distinct = distinct spelling x use",
 		Assumptions: []string{
 			"exponent-int spellings that do not denote an integer (1e-3) are a don't-care",
@@ -211,9 +211,9 @@ func gen(thorough bool, emit func(tcase)) {
 		emit(tcase{Class: "str/raw", Src: p[0], Kind: "str", Strs: []string{p[1]}})
 	}
 	// F. identifiers
-	idLen := 3
+	idLen := 4
 	if thorough {
-		idLen = 4
+		idLen = 5
 	}
 	seen := map[string]bool{}
 	emitName := func(name string) {
